@@ -417,6 +417,15 @@ pub mod c12 {
         }
         hasher.finish()
     }
+    /// The key of the anti inverse cache (un.rs `anti_inverse`: `for_un`, then `hash_deep(Some(asm))` of each node)
+    pub fn anti_inverse_key(nodes: &[Node], asm: &crate::Assembly, for_un: bool) -> u64 {
+        let mut hasher = RapidHasher::new(1);
+        for_un.hash(&mut hasher);
+        for node in nodes {
+            node.hash_deep(Some(asm), &mut hasher);
+        }
+        hasher.finish()
+    }
     /// The key of the fast row function cache (zip.rs `f_mon_fast_fn`: `hash_deep(None)` of the node)
     pub fn zip_key(node: &Node) -> u64 {
         let mut hasher = RapidHasher::new(1);
